@@ -150,10 +150,23 @@ func argFor(t *rapid.T, doc *sbom.Document, at reflect.Type, label string) (refl
 	}
 	if at.Kind() == reflect.Ptr && at.Implements(reflect.TypeOf((*proto.Message)(nil)).Elem()) {
 		m := reflect.New(at.Elem()).Interface().(proto.Message)
-		hx.Populate(t, label, m.ProtoReflect(), hx.PopOpts{Text: c11Text(), Depth: 2, MaxRep: 2, FillProb: 50})
-		return reflect.ValueOf(m), true
+		// (a type that is a message only through an embedded pointer has no valid reflection view when freshly made)
+		if pr := safeProtoReflect(m); pr != nil && pr.IsValid() {
+			hx.Populate(t, label, pr, hx.PopOpts{Text: c11Text(), Depth: 2, MaxRep: 2, FillProb: 50})
+			return reflect.ValueOf(m), true
+		}
+		return reflect.Value{}, false
 	}
 	return reflect.Value{}, false
+}
+
+func safeProtoReflect(m proto.Message) (pr protoreflect.Message) {
+	defer func() {
+		if recover() != nil {
+			pr = nil
+		}
+	}()
+	return m.ProtoReflect()
 }
 
 // receivers enumerates every message reachable in the document that has methods.
@@ -249,6 +262,11 @@ func msgOf(v reflect.Value) proto.Message {
 var c11Formats = []formats.Format{formats.CDX10JSON, formats.CDX11JSON, formats.CDX12JSON, formats.CDX13JSON, formats.CDX14JSON, formats.CDX15JSON, formats.SPDX23JSON}
 
 func c11Serialize(doc *sbom.Document, f formats.Format) {
+	defer func() {
+		if r := recover(); r != nil {
+			hx.Class("serializer_panicked(C07's clause)")
+		}
+	}()
 	var buf bytes.Buffer
 	_ = writer.New().WriteStreamWithOptions(doc, nopCloser{&buf}, &writer.Options{Format: f})
 }
